@@ -112,7 +112,7 @@ func c03SQL(cfg c03Cfg) string {
 	case "pct":
 		return fmt.Sprintf("SELECT count(*) AS n, percentile(v, 0) AS p0, percentile(v, 0.25) AS p25, percentile(v, 0.5) AS p50, percentile(v, 0.95) AS p95, percentile(v, 1) AS p100, nth_value(v, 1) AS nv1, nth_value(v, 2) AS nv2 FROM stream GROUP BY CountingWindow(%d)", cfg.N)
 	case "expr":
-		return fmt.Sprintf("SELECT count(*) AS n, sum(v + w) AS s1, sum(v * 2) AS s2, sum((v - 1) * 2) AS s3, sum(d.x) AS s4, avg(d.x) AS a4, max(v + w) AS m1, count(v * 2) AS c2 FROM stream GROUP BY CountingWindow(%d)", cfg.N)
+		return fmt.Sprintf("SELECT count(*) AS n, sum(v + w) AS s1, sum(v * 2) AS s2, sum((v - 1) * 2) AS s3, sum(d.x) AS s4, avg(d.x) AS a4, max(v + w) AS m1, count(v * 2) AS c2, sum(wLoad) AS s5, max(wLoad * 2) AS m5 FROM stream GROUP BY CountingWindow(%d)", cfg.N)
 	case "groups":
 		// every aggregate of the property at once, two groups in one batch (per-group state must not be shared);
 		// stddev is left out here (known finding on "main"), its reference value is injected before the comparison
@@ -401,6 +401,7 @@ func c03ExprRow(i, j int) (Row, [5]ref.Val) {
 	r := Row{}
 	c03Alphabet[i].Set(r, "v")
 	c03Alphabet[j].Set(r, "w")
+	c03Alphabet[j].Set(r, "wLoad") // the same value under a name with an upper-case letter
 	v, w := c03Alphabet[i].Ref, c03Alphabet[j].Ref
 	d := Row{}
 	c03Alphabet[j].Set(d, "x")
@@ -454,6 +455,12 @@ func c03CheckExpr(r Row, per [][5]ref.Val) (col, what string) {
 	}
 	if !cmpNum(r["c2"], float64(len(colOf(4)))) {
 		return "c2", fmt.Sprintf("count(v*2)=%v, reference %d", r["c2"], len(colOf(4)))
+	}
+	if cc, w := chkSum("s5", colOf(3)); cc != "" {
+		return cc, w
+	}
+	if xs := colOf(3); len(xs) > 0 && !cmpNum(r["m5"], 2*ref.Max(xs)) {
+		return "m5", fmt.Sprintf("max(wLoad*2)=%v, reference %v", r["m5"], 2*ref.Max(xs))
 	}
 	return "", ""
 }
